@@ -268,7 +268,8 @@ run_eq(FILE * f)
 			if (sscanf(line, "qget %lu", &a) != 1)
 				continue;
 			p = elasticqueue_get(EQ, a);
-			vt_begin("eq_get"); vt_int("pos", (long long)a); vt_bool("null", p == NULL);
+			/* (positions beyond 2^31 are logged as 2^31 - 1: beyond the end of any queue a program builds) */
+			vt_begin("eq_get"); vt_int("pos", a > 0x7fffffffUL ? 0x7fffffffLL : (long long)a); vt_bool("null", p == NULL);
 			vt_hex("rec", p, p ? reclen : 0); vt_end();
 		}
 	}
@@ -332,7 +333,8 @@ run_sm(FILE * f)
 			if (r >= 0 && r + 1 > issued) issued = (long)r + 1;
 			vt_begin("sm_add"); vt_int("ptr", a); vt_int("num", (long long)r); common(); vt_end();
 		} else if (strcmp(op, "sget") == 0) {
-			vt_begin("sm_get"); vt_int("num", a); vt_int("ptr", ptrid(seqptrmap_get(M, a))); vt_end();
+			/* (numbers beyond +-2^31 are logged as +-(2^31 - 1): outside any map a program builds) */
+			vt_begin("sm_get"); vt_int("num", a > 0x7fffffffL ? 0x7fffffffL : a < -0x7fffffffL ? -0x7fffffffL : a); vt_int("ptr", ptrid(seqptrmap_get(M, a))); vt_end();
 		} else if (strcmp(op, "sdelete") == 0) {
 			seqptrmap_delete(M, a);
 			vt_begin("sm_delete"); vt_int("num", a); common(); vt_end();
